@@ -11,6 +11,7 @@ wt = f'/tmp/seed-{pid}'
 tests = []
 name = pid
 check = pid
+recheck = False
 i = 0
 while i < len(args):
     if args[i] == '--tests':
@@ -22,6 +23,8 @@ while i < len(args):
         name = args[i + 1]; i += 2; continue
     if args[i] == '--check':
         check = args[i + 1]; i += 2; continue
+    if args[i] == '--recheck':
+        recheck = True; i += 1; continue
     wt = args[i]; i += 1
 seed = os.path.join(wt, 'SEED')
 res = {}
@@ -30,6 +33,22 @@ def run(cmd, env=None, cwd=None, timeout=3000):
     t0 = time.time()
     p = subprocess.run(cmd, shell=True, env=e, cwd=cwd, capture_output=True, text=True, timeout=timeout)
     return p.returncode, p.stdout + p.stderr, time.time() - t0
+if recheck:
+    # the check was strengthened after the first evaluation: re-run only the check, keep demo / test results
+    dst = f'/verif/seeded/{name}'
+    meta = json.load(open(os.path.join(dst, 'meta.json')))
+    rc3, out3, dt3 = run(f'./vcheck {check} --tier quick', {'VERIF_REPO': wt}, '/verif', timeout=5000)
+    viol = [l for l in out3.splitlines() if l.startswith('VIOLATION')]
+    keys = [l.strip() for l in out3.splitlines() if l.strip().startswith('key:')]
+    meta.setdefault('initially_detected', meta.get('detected', False))
+    meta['evaluated']['check_after_strengthening'] = {'cmd': f'VERIF_REPO={wt} ./vcheck {check} --tier quick', 'rc': rc3,
+                                                       'violations': len(viol), 'keys': keys[:8], 'wall_s': round(dt3)}
+    meta['detected'] = rc3 == 1
+    json.dump(meta, open(os.path.join(dst, 'meta.json'), 'w'), indent=1)
+    print(f'recheck: rc={rc3} violations={len(viol)}', keys[:5])
+    if rc3 not in (0, 1):
+        print(out3[-1500:])
+    sys.exit(0)
 rc1, out1, _ = run('/venv/bin/python demo.py', {'PYTHONPATH': wt}, seed)
 rc0, out0, _ = run('/venv/bin/python demo.py', {'PYTHONPATH': '/repo'}, seed)
 res['demo_changed_rc'] = rc1; res['demo_unchanged_rc'] = rc0
